@@ -867,7 +867,9 @@ func evalChain(name string) (vs []*verdict, classes []string) {
 		n := blk.NumberU64()
 		v := recovering(func() *verdict {
 			if _, err := bc.InsertChain(types.Blocks{blk}); err != nil {
-				ev.Broken("generated block %d rejected: %v", n, err)
+				// builder (core.GenerateChain) and importer are both the repository's code: when they disagree
+				// about the state after a block, one of them moves coins differently from the other
+				return &verdict{oracle: "import-disagrees-with-builder", msg: fmt.Sprintf("block %d built by core.GenerateChain is rejected by InsertChain: %v", n, err)}
 			}
 			st, err := bc.StateAt(blk.Root())
 			if err != nil {
